@@ -10,7 +10,7 @@
 (* Values: all fields zero ("z"), or all non-zero ("n") except at most one field that is zero/nil    *)
 (* ("z") or empty-but-not-nil ("e"): nil at each pointer / interface / slice / map position.         *)
 EXTENDS Integers, Sequences, FiniteSets, TLC, Json
-CONSTANTS HotKinds, HotTags, NbrSet, MaxFields, EmbKinds, TwoVariant, NameMenu
+CONSTANTS HotKinds, HotTags, NbrSet, MaxFields, EmbKinds, TwoVariant, NameMenu, NbrDistinct
 
 VARIABLES fs
 \* neighbour menus (a configuration file cannot hold records)
@@ -34,6 +34,9 @@ Probe(n, v) == /\ Len(fs) < MaxFields
 Next == \/ \E n \in NameMenu, v \in {"z", "n"} : Probe(n, v)
         \/ \E k \in HotKinds, t \in HotTags, v \in {"z", "n", "e"} : v \in Variants(k) /\ (k \in EmbKinds => t = "") /\ Add(k, t, v)
         \/ \E x \in Nbr, v \in {"z", "n", "e"} : v \in Variants(x.k) /\ Add(x.k, x.t, v)
-OK == Hot(fs) <= 1 /\ ValOK(fs) /\ NamesOK(fs)
+\* quick tier: the neighbours of a shape are pairwise different menu entries (halves the 3-field shapes)
+NbrOK(s) == ~NbrDistinct \/ \A i, j \in 1..Len(s) : (i # j /\ IsNbr(s[i]) /\ IsNbr(s[j]) /\ s[i].n \notin NameMenu /\ s[j].n \notin NameMenu)
+                                                      => (s[i].k # s[j].k \/ s[i].t # s[j].t)
+OK == Hot(fs) <= 1 /\ ValOK(fs) /\ NamesOK(fs) /\ NbrOK(fs)
 Emit == OK /\ (fs = <<>> \/ PrintT(<<"CASE", ToJson([f |-> fs])>>))
 =============================================================================
